@@ -117,3 +117,62 @@ impl Fnv {
         self.bytes(s.as_bytes());
     }
 }
+
+/// Deterministic hasher for the harness' own hash maps: with std's per-process random
+/// SipHash keys the order in which a map's entries are dropped (and their heap blocks
+/// freed) differs from run to run, and with it every later allocation address - which
+/// defects keyed on addresses would turn into unreproducible verdicts.
+#[derive(Default, Clone, Copy)]
+pub struct DetHasher(u64);
+
+impl std::hash::Hasher for DetHasher {
+    fn finish(&self) -> u64 {
+        // final avalanche (splitmix64 finaliser)
+        let mut z = self.0 ^ 0x9E37_79B9_7F4A_7C15;
+        z = (z ^ (z >> 30)).wrapping_mul(0xBF58_476D_1CE4_E5B9);
+        z = (z ^ (z >> 27)).wrapping_mul(0x94D0_49BB_1331_11EB);
+        z ^ (z >> 31)
+    }
+    fn write(&mut self, bytes: &[u8]) {
+        let mut h = if self.0 == 0 { 0xcbf2_9ce4_8422_2325 } else { self.0 };
+        for &b in bytes {
+            h ^= b as u64;
+            h = h.wrapping_mul(0x0000_0100_0000_01B3);
+        }
+        self.0 = h;
+    }
+}
+
+pub type DetBuild = std::hash::BuildHasherDefault<DetHasher>;
+pub type DetMap<K, V> = std::collections::HashMap<K, V, DetBuild>;
+pub type DetSet<K> = std::collections::HashSet<K, DetBuild>;
+
+/// The randomness seam. std seeds every `HashMap`'s SipHash keys from `getrandom` (once per
+/// thread, then incremented per map); regress' parser keeps named groups in such maps, so
+/// with real randomness the order in which their entries are dropped - and therefore the
+/// allocator's address sequence - differs from process to process. This definition
+/// interposes the C library's: a counter-driven splitmix64 stream, the same in every run.
+/// (Nothing in the simulator or in regress needs real entropy.)
+static GETRANDOM_CTR: std::sync::atomic::AtomicU64 = std::sync::atomic::AtomicU64::new(0x5EED_0F_7E57);
+pub static GETRANDOM_CALLS: std::sync::atomic::AtomicU64 = std::sync::atomic::AtomicU64::new(0);
+
+#[no_mangle]
+pub unsafe extern "C" fn getrandom(buf: *mut u8, len: usize, _flags: u32) -> isize {
+    use std::sync::atomic::Ordering::Relaxed;
+    GETRANDOM_CALLS.fetch_add(1, Relaxed);
+    let mut i = 0;
+    while i < len {
+        let mut x = GETRANDOM_CTR.fetch_add(0x9E37_79B9_7F4A_7C15, Relaxed);
+        x = (x ^ (x >> 30)).wrapping_mul(0xBF58_476D_1CE4_E5B9);
+        x = (x ^ (x >> 27)).wrapping_mul(0x94D0_49BB_1331_11EB);
+        x ^= x >> 31;
+        let bytes = x.to_le_bytes();
+        let mut k = 0;
+        while k < 8 && i < len {
+            *buf.add(i) = bytes[k];
+            i += 1;
+            k += 1;
+        }
+    }
+    len as isize
+}
